@@ -365,3 +365,43 @@ var _ = io.EOF
 
 func lockStore()   {}
 func unlockStore() {}
+
+// ---- the variants without a context argument: database/sql runs them with context.Background()
+
+func Sym_DB_Exec(db *sql.DB, query string, args ...interface{}) (sql.Result, error) {
+	return Sym_DB_ExecContext(db, context.Background(), query, args...)
+}
+func Sym_DB_Query(db *sql.DB, query string, args ...interface{}) (*sql.Rows, error) {
+	return Sym_DB_QueryContext(db, context.Background(), query, args...)
+}
+func Sym_DB_QueryRow(db *sql.DB, query string, args ...interface{}) *sql.Row {
+	return Sym_DB_QueryRowContext(db, context.Background(), query, args...)
+}
+func Sym_DB_Prepare(db *sql.DB, query string) (*sql.Stmt, error) {
+	return Sym_DB_PrepareContext(db, context.Background(), query)
+}
+func Sym_DB_Begin(db *sql.DB) (*sql.Tx, error) { return Sym_DB_BeginTx(db, context.Background(), nil) }
+func Sym_Tx_Exec(tx *sql.Tx, query string, args ...interface{}) (sql.Result, error) {
+	return Sym_Tx_ExecContext(tx, context.Background(), query, args...)
+}
+func Sym_Tx_Query(tx *sql.Tx, query string, args ...interface{}) (*sql.Rows, error) {
+	return Sym_Tx_QueryContext(tx, context.Background(), query, args...)
+}
+func Sym_Tx_QueryRow(tx *sql.Tx, query string, args ...interface{}) *sql.Row {
+	return Sym_Tx_QueryRowContext(tx, context.Background(), query, args...)
+}
+func Sym_Tx_Prepare(tx *sql.Tx, query string) (*sql.Stmt, error) {
+	return Sym_Tx_PrepareContext(tx, context.Background(), query)
+}
+func Sym_Tx_Stmt(tx *sql.Tx, stmt *sql.Stmt) *sql.Stmt {
+	return Sym_Tx_StmtContext(tx, context.Background(), stmt)
+}
+func Sym_Stmt_Exec(st *sql.Stmt, args ...interface{}) (sql.Result, error) {
+	return Sym_Stmt_ExecContext(st, context.Background(), args...)
+}
+func Sym_Stmt_Query(st *sql.Stmt, args ...interface{}) (*sql.Rows, error) {
+	return Sym_Stmt_QueryContext(st, context.Background(), args...)
+}
+func Sym_Stmt_QueryRow(st *sql.Stmt, args ...interface{}) *sql.Row {
+	return Sym_Stmt_QueryRowContext(st, context.Background(), args...)
+}
